@@ -303,9 +303,15 @@ func main() {
 			if k == 0 {
 				p, q = r.P.String(), r.Q.String()
 			}
-			sh, ix = c.Case(fmt.Sprintf("CPQ %s %s (%d, %s, %s)", pq.String(), hx.List(vs), k, p, q), rp)
+			sh, ix = c.Case(fmt.Sprintf("CPQ %s %s %s (%d, %s, %s)", pq.String(), hx.B(pq.ProbablyPrime(0)), hx.List(vs), k, p, q), rp)
 		}
-		if a < 2 || b < 2 || len(vals) < 4 { // not a semiprime / failing random source: outside the property, correspondence only
+		if a < 2 || b < 2 || len(vals) < 4 { // not a semiprime / failing random source: correspondence, and it must fail cleanly
+			switch r.Kind {
+			case 2:
+				c.Violate("pq-panic", fmt.Sprintf("DecomposePQ(%s) panicked", pq), sh, ix, rp)
+			case 3:
+				c.Violate("pq-no-result-within-watchdog", fmt.Sprintf("DecomposePQ(%s) did not return within 30 s", pq), sh, ix, rp)
+			}
 			return
 		}
 		c.Nontrivial("pq:" + pq.String())
@@ -470,8 +476,14 @@ func main() {
 	pqOne("model-square", 2, 2, true, nil)
 	pqOne("model-square", 3, 3, true, nil)
 	pqOne("model-6", 2, 3, true, nil)
+	// values without a non-trivial factorisation (rejected since fix be1265001; before it pq = 0, 1
+	// panicked and a prime never returned): outside the property, correspondence + "no panic" only
 	pqOne("model-pq-0", 0, 5, true, nil)
 	pqOne("model-pq-1", 1, 1, true, nil)
+	pqOne("model-pq-2", 1, 2, true, nil)
+	pqOne("model-pq-3", 1, 3, true, nil)
+	pqOne("model-pq-prime", 1, 1000003, true, nil)
+	pqOne("model-pq-prime-63-bit", 1, 9223372036854775783, true, nil)
 	pqOne("model-short-stream", 11, 13, true, []uint64{5}) // random source fails: error
 	p12 := primesBelow(4096)
 	for i := 0; i < c.N(3, 20); i++ {
